@@ -474,7 +474,7 @@ func ruleMediaFresh(r *Run) {
 	})
 	okAll := len(restoreCalls) > 0
 	for _, ret := range returnsOf(open) {
-		if len(ret.Results) == 2 && isNilConst(ret.Results[1]) {
+		if len(ret.Results) == 2 && isNilConst(retResult(ret, 1)) {
 			if !mustPassThrough(open, ret, restoreCalls) {
 				okAll = false
 			}
